@@ -90,9 +90,10 @@ Definition t4_send (c : card) (o : op) : res (list Z) * card :=
 Record ccinfo := mkInfo { i_mle : Z; i_mlc : Z; i_cap : Z; i_rd : bool; i_wr : bool; i_nlen : Z; i_fid : list Z; i_p2 : Z }.
 
 Definition be (l : list Z) : Z := fold_left (fun a x => a * 256 + x) l 0.
-(* unpack(">BHHB9p") on the 15 (padded) capability bytes, version and control TLV checks *)
-Definition cc_parse (p2 : Z) (cap : list Z) : option ccinfo :=
-  let c := cap ++ repeat 0 (15 - length cap)%nat in
+(* capabilities += (15-len(capabilities)) * b"\0" *)
+Definition cc_pad (cap : list Z) : list Z := cap ++ repeat 0 (15 - length cap)%nat.
+(* unpack(">BHHB9p") on the 15 capability bytes, version and control TLV checks, clamps, capacity *)
+Definition cc_fields (p2 : Z) (c : list Z) : option ccinfo :=
   let ver := bt c 0 in let mle := bt c 1 * 256 + bt c 2 in let mlc := bt c 3 * 256 + bt c 4 in
   let tag := bt c 5 in
   let val := firstn (Z.to_nat (Z.min (bt c 6) 8)) (skipn 7 c) in
@@ -104,6 +105,7 @@ Definition cc_parse (p2 : Z) (cap : list Z) : option ccinfo :=
     let mfs := be (firstn 4 (skipn 2 val)) in
     Some (mkInfo (Z.min mle 256) (Z.min mlc 255) (Z.min mfs 65536 - 4) (bt val 6 =? 0) (bt val 7 =? 0) 4 (firstn 2 val) p2)
   else None.
+Definition cc_parse (p2 : Z) (cap : list Z) : option ccinfo := cc_fields p2 (cc_pad cap).
 
 Definition lift {X} (r : res (list Z) * card) (k : list Z -> card -> res X * card) : res X * card :=
   match r with
